@@ -110,6 +110,7 @@ class DSL:
         init = ci.methods.get("__init__")
         if init is None:
             return []
+        init = self.prj.func(init.qual)
         out = []
         params = [p for p in init.params() if p != "self"]
         for n in init.walk():
@@ -311,6 +312,7 @@ class Interp:
             init = c.methods.get("__init__")
             if init is None:
                 continue
+            init = self.prj.func(init.qual)
             for n in init.walk():
                 if isinstance(n, ast.Assign) and len(n.targets) == 1 and isinstance(n.targets[0], ast.Attribute) \
                         and isinstance(n.targets[0].value, ast.Name) and n.targets[0].value.id == "self":
@@ -341,6 +343,7 @@ class Interp:
             m = obj.ci.find_method(name)
             if m is None:
                 raise Unsupported(f"{obj.ci.name} has no method {name}")
+            m = self.prj.func(m.qual)
             return self.run(m, {"self": obj, **dict(zip([p for p in m.params() if p != "self"], args))})
         if isinstance(obj, AToken):
             m = self.token_cls.find_method(name)
@@ -748,79 +751,139 @@ class ConsumeRule:
     def __init__(self):
         self.priority_open = False      # transitions of open predicates are tried exclusively
         self.raises_on_second = False   # a second accepting transition raises
-        self.first_match = False        # leaves the loop at the first accepting transition
+        self.first_match = False        # the first accepting transition in list order wins
+        self.last_match = False         # the last accepting transition in list order wins
         self.copies_predicates = False  # predicates are deep-copied per Pattern instance
-        self.loop = None
+        self.order_dependent = []       # scenarios whose outcome depends on the order of the transition list
+        self.other = []                 # scenarios that fit none of the recognised selection rules
+        self.scenarios = 0
         self.fi = None
+        self.loop = None
         self.raise_node = None
 
 
 def consume_rule(prj: Project) -> ConsumeRule:
-    from .core import local_defs, guards_of
-    fi = prj.func("codelimit.common.gsm.Pattern:Pattern.consume")
+    """The selection rule of Pattern.consume, obtained by evaluating its source (helpers included, whatever their shape)
+    on every scenario of a state with two outgoing transitions: both list orders x which predicates are open x which
+    accept the item.  The predicates are symbolic; accept()/is_open() answers come from the enumerated scenario."""
+    from .absint import MiniInterp, PyRaise, Sym, Unknown
+    qual = "codelimit.common.gsm.Pattern:Pattern.consume"
+    fi = prj.func(qual)
+    cls = fi.cls
     r = ConsumeRule()
     r.fi = fi
-    loops = []
     for n in fi.walk():
-        if isinstance(n, ast.For):
-            if any(isinstance(c, ast.Call) and isinstance(c.func, ast.Attribute) and c.func.attr == "accept"
-                   for c in ast.walk(n)):
-                loops.append(n)
-    if len(loops) != 1:
-        raise AnalysisError(f"{fi.disp}: expected one loop that offers the item to the transitions' predicates, found {len(loops)}")
-    loop = loops[0]
-    r.loop = loop
-    # accept-branch: the `if <...accept(item)>:` inside the loop
-    acc_if = None
-    for n in ast.walk(loop):
-        if isinstance(n, ast.If) and any(isinstance(c, ast.Call) and isinstance(c.func, ast.Attribute) and c.func.attr == "accept"
-                                         for c in ast.walk(n.test)):
-            acc_if = n
-    if acc_if is None:
-        raise AnalysisError(f"{fi.disp}: the result of accept() is not tested by an if statement")
-    for n in ast.walk(acc_if):
-        if isinstance(n, ast.Raise):
-            r.raises_on_second = True
+        if isinstance(n, ast.Raise) and r.raise_node is None:
             r.raise_node = n
-        if isinstance(n, (ast.Break, ast.Return)):
+        if isinstance(n, ast.For) and r.loop is None:
+            r.loop = n
+    outcomes = {}
+    shared_calls = []
+
+    def scenario(order, opens, accepts):
+        P = {i: Sym(f"P{i}") for i in (1, 2)}
+        T = {i: Sym(f"T{i}") for i in (1, 2)}
+        copies = {}
+        state = Sym("S", transition=[(P[i], T[i]) for i in order])
+        me = Sym("pattern", state=state, tokens=[], predicate_map={}, start=0, end=0, automata=Sym("dfa"))
+        item = Sym("item")
+
+        def hook(it, kind, f, args, kwargs, node, cur):
+            if kind != "call":
+                return NotImplemented
+            if isinstance(f, tuple) and f and f[0] == "method":
+                _, obj, name = f
+                if obj is me:
+                    m = cls.find_method(name)
+                    if m is None:
+                        raise Unknown(f"method {name} of Pattern")
+                    return it.call(prj.func(m.qual), args, kwargs, self_obj=me)
+                origin = obj.fields.get("origin")
+                base = origin if origin is not None else obj
+                idx = next((i for i in (1, 2) if P[i] is base), None)
+                if idx is None:
+                    raise Unknown(f"method {name} of {obj}")
+                if origin is None:
+                    shared_calls.append((name, cur.site(node)))
+                if name == "accept":
+                    return accepts[idx]
+                if name == "is_open":
+                    return opens[idx]
+                raise Unknown(f"predicate method {name}")
+            if isinstance(f, tuple) and f and f[0] == "external" and f[1].replace(":", ".").split(".")[-1] in ("deepcopy", "copy"):
+                x = args[0]
+                if isinstance(x, Sym):
+                    return copies.setdefault((x.uid, len(copies)), Sym("copy:" + x.name, origin=x.fields.get("origin", x)))
+                raise Unknown("copy of a non-predicate")
+            return NotImplemented
+        it = MiniInterp(prj, hook)
+        try:
+            v = it.call(fi, [item], {}, self_obj=me)
+        except PyRaise as e:
+            return ("raise", e.name)
+        if v is None:
+            return ("none",)
+        for i in (1, 2):
+            if v is T[i]:
+                if me.fields["state"] is not T[i]:
+                    return ("returns-without-moving", i)
+                return ("to", i)
+        if v is state:
+            return ("stays",)
+        return ("other", repr(v))
+
+    try:
+        for order in ((1, 2), (2, 1)):
+            for o1 in (False, True):
+                for o2 in (False, True):
+                    for a1 in (False, True):
+                        for a2 in (False, True):
+                            outcomes[(order, o1, o2, a1, a2)] = scenario(order, {1: o1, 2: o2}, {1: a1, 2: a2})
+    except Unknown as e:
+        raise AnalysisError(f"{fi.disp}: cannot evaluate the selection rule of Pattern.consume ({e})")
+    r.scenarios = len(outcomes)
+    r.copies_predicates = not shared_calls
+    r.shared_calls = shared_calls
+    for (order, o1, o2, a1, a2), out in outcomes.items():
+        if order == (1, 2) and outcomes[((2, 1), o1, o2, a1, a2)] != out:
+            r.order_dependent.append(f"open={o1, o2} accept={a1, a2}: {out} with the transitions listed [1,2], "
+                                     f"{outcomes[((2, 1), o1, o2, a1, a2)]} listed [2,1]")
+
+    def spec(prio, o1, o2, a1, a2, both):
+        cand = [i for i in (1, 2) if (o1, o2)[i - 1]] if prio and (o1 or o2) else [1, 2]
+        acc = [i for i in cand if (a1, a2)[i - 1]]
+        if not acc:
+            return ("none",)
+        if len(acc) == 1:
+            return ("to", acc[0])
+        return both
+    fits = {}
+    for prio in (True, False):
+        ok_raise = all(out[0] == "raise" if spec(prio, *k[1:], ("both",)) == ("both",) else out == spec(prio, *k[1:], None)
+                       for k, out in outcomes.items())
+        fits[prio] = ok_raise
+    if fits[True] and not fits[False]:
+        r.priority_open, r.raises_on_second = True, True
+        return r
+    if fits[False]:
+        r.priority_open, r.raises_on_second = False, True
+        return r
+    # not the strict rule: classify what happens when both candidates accept
+    for prio in (True, False):
+        single_ok = all(out == spec(prio, *k[1:], None) for k, out in outcomes.items() if spec(prio, *k[1:], ("both",)) != ("both",))
+        if not single_ok:
+            continue
+        r.priority_open = prio
+        both = {k: out for k, out in outcomes.items() if spec(prio, *k[1:], ("both",)) == ("both",)}
+        if all(out == ("to", k[0][0]) for k, out in both.items()):
             r.first_match = True
-    # priority: the loop iterates a local that is conditionally replaced by the
-    # sub-list of transitions whose (copied) predicate reports is_open()
-    it = loop.iter
-    if isinstance(it, ast.Name):
-        defs = local_defs(fi, it.id)
-        for val, st in defs:
-            if isinstance(val, ast.Name):
-                for v2, st2 in local_defs(fi, val.id):
-                    if isinstance(v2, ast.ListComp) and any(
-                            isinstance(c, ast.Call) and isinstance(c.func, ast.Attribute) and c.func.attr == "is_open"
-                            for g in v2.generators for cond in g.ifs for c in ast.walk(cond)):
-                        gs = guards_of(fi, st)
-                        if any(isinstance(g.test, ast.Name) and g.test.id == val.id and g.polarity for g in gs):
-                            r.priority_open = True
-    # deepcopy per pattern: accept is called on a value that comes from a deepcopy(...)
-    # (directly, or through a helper method of the class that returns such a value)
-    def returns_deepcopy(f: FuncInfo) -> bool:
-        return any(isinstance(c, ast.Call) and attr_chain(c.func) in ("deepcopy", "copy.deepcopy") for c in f.calls())
-    recv_ok = False
-    for c in ast.walk(loop):
-        if isinstance(c, ast.Call) and isinstance(c.func, ast.Attribute) and c.func.attr == "accept":
-            recv = c.func.value
-            if isinstance(recv, ast.Name):
-                for val, st in local_defs(fi, recv.id):
-                    if val is None:
-                        continue
-                    for cc in ast.walk(val):
-                        if isinstance(cc, ast.Call):
-                            if attr_chain(cc.func) in ("deepcopy", "copy.deepcopy"):
-                                recv_ok = True
-                            tg, kind = prj.resolve_call(fi, cc)
-                            if any(returns_deepcopy(t) for t in tg if t.cls is fi.cls):
-                                recv_ok = True
-                        if isinstance(cc, ast.Subscript) and "predicate_map" in unparse(cc.value):
-                            # map filled only with deepcopy results
-                            recv_ok = recv_ok or returns_deepcopy(fi)
-    r.copies_predicates = recv_ok
+        elif all(out == ("to", k[0][1]) for k, out in both.items()):
+            r.last_match = True
+        else:
+            r.other = sorted(f"{k}: {out}" for k, out in both.items() if out[0] != "raise")
+        return r
+    r.other = sorted(f"{k}: {out}" for k, out in outcomes.items())
+    r.priority_open = None
     return r
 
 
